@@ -177,7 +177,7 @@ theorem subclassOp_result (F : Facts15) (base : Option Nat) (name : String) (ns 
     (h h' : Heap) (id : Nat)
     (hr : subclassOp F base name ns fields perm attrs mixins asMixin h = .ok h' id) :
     ∃ cl, h'.cls[id]? = some cl
-      ∧ cl.fields = prependMixins F (mixinFields h mixins) (declaredFields F perm fields) ∧ cl.orig = none
+      ∧ cl.fields = applyOrder h (prependMixins F (mixinFields h mixins) (declaredFields F perm fields)) ∧ cl.orig = none
       ∧ cl.tn = some name ∧ cl.kind = .complex := by
   unfold subclassOp at hr
   obtain ⟨g1, bc, e1, hr1⟩ := bind_ok_inv _ _ _ _ _ hr
@@ -572,5 +572,20 @@ theorem keysOf_prepend (mf d : List (String × Nat)) (hn : (keysOf mf).Nodup) :
       intro x _
       by_cases e : x = p.1 <;> simp [e]
 
+
+/-- field types without an `order` attribute leave the declared sequence alone -/
+theorem applyOrder_none (h : Heap) (fs : List (String × Nat)) (hn : ∀ p, p ∈ fs → orderOf h p.2 = none) :
+    applyOrder h fs = fs := by
+  unfold applyOrder
+  have h1 : fs.filter (fun p => (orderOf h p.2).isSome) = [] := by
+    apply List.filter_eq_nil_iff.mpr
+    intro p hp
+    simp [hn p hp]
+  have h2 : fs.filter (fun p => (orderOf h p.2).isNone) = fs := by
+    apply List.filter_eq_self.mpr
+    intro p hp
+    simp [hn p hp]
+  rw [h1, h2]
+  rfl
 
 end SpyneModel.Derive
